@@ -994,6 +994,8 @@ class Origins:
                         for a in c.args:
                             out += self.elements(f, a, d, seen, pos)
                     return out
+            if nm in NAME_FUNCS or nm in NAME_METHODS:
+                return stop  # public API that returns plain module names (its own cuts are checked where it is defined)
             cs = self._callees(f, c)
             if cs:
                 out = []
